@@ -163,6 +163,10 @@ def small(t, rng=None, n=0):
     return sorted(v for v in vs if lo(t) <= v <= hi(t))
 
 
+# truncation_check<bool>(S) for an 8-bit S answers some(true) for every value >= 2 (sizeof(bool) == sizeof(S) is taken for
+# "every value fits").  Reported to the coordinator as a defect candidate; until it is decided (fix: commit or known finding)
+# these ops — implemented in harness and driver — are not generated.  `VERIF_C06_BOOL8=1 ./check.py C06` shows the violation.
+BOOL_DEST_FROM_8BIT = os.environ.get("VERIF_C06_BOOL8") == "1"
 CANON = {"ll": "i64", "ull": "u64", "ch": "i8", "wc": "i32", "c8": "u8", "c16": "u16", "c32": "u32"}
 NAMED_PAIRS = [("ll", "i32"), ("i32", "ll"), ("ll", "u64"), ("ull", "i64"), ("u64", "ull"), ("i64", "ll"), ("ull", "ll"), ("u8", "ll"),
                ("ch", "i32"), ("ch", "u8"), ("u8", "ch"), ("i8", "ch"), ("wc", "i64"), ("wc", "u32"), ("u16", "wc"), ("c8", "i16"),
@@ -195,6 +199,12 @@ def batches(rng, tier):
         cs = CANON.get(s, s)
         f = f"truncation_check_{d}_{s}"
         ops.append(f"range1 {f} {lo(cs)} {hi(cs)}" if BITS[cs] <= 16 else f"list1 {f} {csv(lattice(cs))}")
+    for st in ALL:
+        if BITS[st] == 8 and not BOOL_DEST_FROM_8BIT:
+            continue        # DEFECT CANDIDATE (notes/C06.md): truncation_check<bool>(uint8_t{2}) = some(true); reported, not in the default batches
+        ops.append(f"range1 truncation_check_b_{st} {lo(st)} {hi(st)}" if BITS[st] <= 16 else f"list1 truncation_check_b_{st} {csv(lattice(st))}")
+    for d in ("u8", "u64", "i8", "i32", "i64"):
+        ops.append(f"range1 truncation_check_{d}_b 0 1")
     yield Batch("truncation_check-random", ops, note="seeded random 32/64-bit sources, half of them near the destination's limits; 20 pairs with long long / char / wchar_t / char8_t / char16_t / char32_t (all 8/16-bit values, lattice)")
     # ---- from_int
     ops = []
@@ -482,6 +492,8 @@ def spec(f, t, args):
 def parse_name(name):
     import re
     m = re.fullmatch(r"truncation_check_([a-z0-9]+)_([a-z0-9]+)", name)
+    if m and "b" in (m.group(1), m.group(2)):
+        return "none", None
     if m and (m.group(1) in CANON or m.group(2) in CANON):
         return "truncation_check", (CANON.get(m.group(1), m.group(1)), CANON.get(m.group(2), m.group(2)))
     for f in ("truncation_check", "from_int", "size", "safe_numeric"):
